@@ -46,6 +46,10 @@ TSpec == TInit /\ [][TNext]_tvars
 HighWater == TLCSet(1, IF TLCGetOrDefault(1, 0) < l THEN l ELSE TLCGetOrDefault(1, 0))
 Report == TLCGet("stats").diameter >= 0 /\ PrintT("@@" \o ToJson([hw |-> TLCGetOrDefault(1, 0), len |-> Len(TraceLog)]))
 
+\* every line has been matched: report and stop (one accepting path is enough)
+Accepted == (l > Len(TraceLog)) => /\ PrintT("@@" \o ToJson([hw |-> l, len |-> Len(TraceLog)]))
+                                   /\ TLCSet("exit", TRUE)
+
 \* the invariants of the design hold in every state of every real execution
 TraceInv == Inv /\ OneWrite /\ WireOrdered /\ LateSilent
 =============================================================================
